@@ -343,6 +343,18 @@ func init() {
 		return w.counterEncipher(a[0].(Slice), a[1].(Slice), a[2].(Slice), a[3].(Slice))
 	}
 
+	I["crypto/subtle.ConstantTimeCompare"] = func(w *Worker, fn *ssa.Function, a []Value) Value {
+		x, y := w.sliceTerms(a[0]), w.sliceTerms(a[1])
+		if len(x) != len(y) {
+			return w.tc.Const(64, 0)
+		}
+		if len(x) == 0 {
+			return w.tc.Const(64, 1)
+		}
+		eq := w.tc.Eq(w.concatBytes(x), w.concatBytes(y))
+		return w.tc.Ite(eq, w.tc.Const(64, 1), w.tc.Const(64, 0))
+	}
+
 	// ---------- crypto/dsa ----------
 	I["crypto/dsa.Sign"] = func(w *Worker, fn *ssa.Function, a []Value) Value { return w.dsaSign(a) }
 	I["crypto/dsa.Verify"] = func(w *Worker, fn *ssa.Function, a []Value) Value { return w.dsaVerify(a) }
